@@ -149,6 +149,10 @@ def r4(R, repo):
     ifs_ = {astu.src(n_.test): [astu.src(s_) for s_ in n_.body if isinstance(s_, ast.Return)] for n_ in astu.body_walk(g.node) if isinstance(n_, ast.If)}
     ok = ifs_.get('ax is broadcast') == ['return ()'] and ifs_.get('ax == 0') == ['return %s' % astu.params(g.node)[1]] and any(isinstance(n_, ast.Return) and astu.src(n_) == 'return jax.tree_util.tree_map(trans, %s)' % astu.params(g.node)[1] for n_ in astu.body_walk(g.node))
     R.check(ok, key_of(g, 'broadcast -> (), axis 0 -> unchanged, else per-leaf transpose'), g, '%s must return () for broadcast axes, the input for axis 0 and otherwise tree_map(trans, xs)' % g.name)
+  for g in (tf, tt):
+    sw = [x for x in ast.walk(g.node) if isinstance(x, ast.Call) and astu.call_tail(x) == 'swapaxes']
+    R.check(not sw, key_of(g, 'axis moved, not swapped'), (g, sw[0]) if sw else g, '`%s` exchanges the scan axis with axis 0; that equals moving it to / from the front only for axis 0 or 1 - for a scan axis >= 2 (or -1 on rank >= 3) '
+            'the remaining axes are permuted as well, so the body sees transposed slices and outputs are stacked transposed' % (astu.short(sw[0]) if sw else ''), evidence=True)
   tr = ax.func('scan.transpose_from_front.trans')
   xp = astu.params(tr.node)[0]
   pdefs = flow.defs(tr, 'pax')
@@ -221,5 +225,6 @@ meta('C06',
          Mutant('C06-m4', LI, "  rng_axes = tuple(0 if rng_split else None for rng_split in rng_splits)", "  rng_axes = tuple(None if rng_split else 0 for rng_split in rng_splits)", 'C06.R3'),
          Mutant('C06-m5', AX, "      c, ys = lax.scan(\n          body_fn, init, xs, length=length, reverse=reverse, unroll=unroll\n      )\n    ys = jax.tree_util.tree_map(transpose_from_front, out_axes, ys)\n    return broadcast_in, c, ys",
                 "      c, ys = lax.scan(\n          body_fn, init, xs, length=length, unroll=unroll\n      )\n    ys = jax.tree_util.tree_map(transpose_from_front, out_axes, ys)\n    return broadcast_in, c, ys", 'C06.R4'),
+         Mutant('C06-m7', AX, "      perm = (ax,) + tuple(np.delete(perm, ax))\n      return jnp.transpose(x, perm)", "      return jnp.swapaxes(x, ax, 0)", 'C06.R4', why='seed C06-C (round 2)'),
          Mutant('C06-m6', LI, "    broadcast_vars = variable_groups[0]\n    carry_vars = variable_groups[1]", "    broadcast_vars = variable_groups[1]\n    carry_vars = variable_groups[0]", 'C06.R1'),
      ])
